@@ -14,11 +14,10 @@ from props.c11 import run_impl, model_result, impl_view, wire_op, norm, buflen, 
 ID = "C13"
 LEAN_TARGETS = ["TornadoModel.C13.Props"]
 _P = "TornadoModel.C13."
-THEOREMS_PLANNED = [_P + n for n in [
-    "close_settles_all", "all_settled_once", "satisfiable_read_gets_data", "others_get_closed_error",
-    "callback_once_after", "no_write_after_close", "read_after_close_only_buffered", "closed_stays_closed",
+THEOREMS = [_P + n for n in [
+    "close_settles_all", "close_spec", "others_get_closed_error", "close_error", "callback_once_after", "close_again",
+    "no_write_after_close",
 ]]
-THEOREMS = [_P + "stub"]
 TRUSTED = base.TRUSTED + [
     "asyncio.Future set-once semantics and FIFO call_soon ordering (abstraction: a settle event per future id)",
     "the connect() / _handle_connect() used by the tie mirror IOStream's (no socket); real connect(2) errors are not exercised",
